@@ -222,6 +222,8 @@ func genAtomic(r *rng.R, kind string) corr.Case {
 			return "prior " + item()
 		case k < 7 && kind == "mq":
 			return r.Pick("addc ", "priorc ") + item()
+		case k < 8 && kind == "syncq" && allowClose:
+			return "trypop"
 		case k < 9 && allowClose:
 			if kind == "mq" && r.Chance(1, 3) {
 				return "tryclose"
@@ -315,6 +317,11 @@ func fixedCases() []corr.Case {
 		mk("fixed", "new mq 1 1", "waitclear", "waitclose", "atomic add 1 ; close", "tryclear", "popany", "tryclear"),
 		// the window between a wake-up and the woken consumer's re-acquisition of the lock: the next producer event
 		// arrives while a consumer is woken but has not resumed
+		// barging: the consumer is signalled, a TryPop takes the item before it runs, it parks again — the next push must
+		// still wake it
+		mk("barge", "new syncq", "pop", "atomic add 1 ; trypop", "add 2", "pop", "atomic add 3 ; trypop", "add 4", "close"),
+		mk("barge", "new syncq", "pop", "pop", "atomic add 1 ; add 2 ; trypop ; trypop", "add 3", "add 4"),
+		mk("barge", "new syncq", "pop", "atomic add 1 ; trypop ; add 2 ; trypop ; add 3"),
 		mk("window", "new syncq", "pop", "pop", "atomic add 1 ; add 2"),
 		mk("window", "new syncq", "pop", "pop", "pop", "atomic add 1 ; add 2 ; add 3", "pop", "add 4"),
 		// a Pop that was already blocked must fail when it wakes up after a Close, even though an item is there
